@@ -6,6 +6,8 @@ import Splipy.Lemmas.C04Periodic
 import Splipy.Lemmas.C04PerSeq
 import Splipy.Lemmas.C04Graded
 import Splipy.Lemmas.C04PerEval
+import Splipy.Lemmas.C04PerKnots
+import Splipy.Lemmas.C04PerEvalAll
 import Mathlib.Tactic.NormNum
 import Mathlib.Tactic.IntervalCases
 import Mathlib.Data.Rat.Floor
@@ -34,18 +36,29 @@ Vocabulary (defined in `Lemmas/C04*.lean`):
   (`x0` inside `[start,end]`, else `(x0-start) % (end-start) + start`).
 * `C04.matF`, `C04.repSeq` — the matrix of `insert_knot` (with its modular writes) as a function, and
   the knot sequence after the periodic ghost repair.
+* `C04.zext b : ℤ → K` — the knot vector of a periodic basis extended periodically to all integer
+  indices (`zext b (i+n) = zext b i + T`, `zext b i = knots[i]` on the array); `C04.insZ f μ w` — the
+  sequence `f` with `w` inserted at position `μ`; `C04.PerIns b b' w` — some `n+1` consecutive knots of
+  `b'` (one period) are `n` consecutive knots of `b` (one period) with `w` inserted in sorted position.
+* `Basis.perMult b v` — the number of knots among the first `n` (one period) that are congruent to `v`
+  modulo the period `T = end - start`: the multiplicity of `v` in the periodic knot set;
+  `C04.congCount T xs v` — the number of entries of the list `xs` congruent to `v` modulo `T`.
 
 Model notes (after the repair of periodic `insert_knot`): the insertion index of a periodic basis is
 `Basis.insertMu = min(bisect_right, len(knots) - p)` (the end of the domain is not passed, so `x = end`
 works for every seam multiplicity); a periodic basis with `n < p + k` functions is refined through its
-`R`-fold cover (`Basis.insertKnot`, cover branch; `R = ⌈(p+k)/n⌉`).  The periodic theorems below cover
-`n ≥ p + k` (the direct algorithm); the cover branch is validated by the correspondence run and oracle.
+`R`-fold cover (`Basis.insertKnot`, cover branch; `R = ⌈(p+k)/n⌉`).  Both branches are covered by
+theorems: `C04_periodic_small` (cover branch), `C04_periodic_partial` (direct algorithm, with the
+explicit form of the repaired knot vector), and `C04_periodic` for every valid periodic basis.
 
 Overview: open directions — `C04_open`, `C04_open_interior`, `C04_sequence`, `C04_object`, `C04_curve`,
-`C04_refine`, `C04_graded`, `C04_rejects`; periodic directions (guard `n ≥ p+k`, value ≠ end) —
-`C04_periodic_boehm` (specification level), `C04_periodic_partial`, `C04_periodic_sequence_partial`,
-`C04_periodic_object_partial`, `C04_periodic_evaluate_curve_partial`; evaluator level for open
-directions of curves/surfaces/volumes — `Bridge_C04_*` in `Properties/Bridge.lean`.
+`C04_refine`, `C04_graded`, `C04_rejects`; periodic directions, every valid periodic basis and every real
+value — `C04_periodic`, `C04_periodic_sequence`, `C04_periodic_object` (fibre-wise),
+`C04_periodic_evaluate_curve_partial` (evaluator level, curves); the two branches separately —
+`C04_periodic_small`, `C04_periodic_partial`, `C04_periodic_boehm` (specification level); the older
+guarded forms `C04_periodic_sequence_partial`, `C04_periodic_object_partial` are kept as corollaries;
+evaluator level for open directions of curves/surfaces/volumes — `Bridge_C04_*` in
+`Properties/Bridge.lean`.
 
 Theorems about the MODEL; multiplicities beyond the order are not excluded here (the spec's `0/0 = 0`
 makes Boehm's identity hold there too) although the real code produces NaN there — such inputs are
@@ -306,9 +319,9 @@ unchanged**: for every coefficient vector `c`, side, derivative order and parame
 point/side of `C01_value_deriv_periodic`), the periodic spline `wsum` (the sum over all wrapped images
 that `BSplineBasis.evaluate` computes) with coefficients `C·c` on the new basis equals the one with `c`
 on the old basis.
-`_partial` — outside the theorem: `n < p + k`, where `insert_knot` refines the `R`-fold cover of the
-basis instead (`Basis.insertKnot`, cover branch); that branch is covered by the correspondence run and
-the oracle, not by a theorem yet. -/
+`_partial` — this is the direct-algorithm branch only (it also gives the explicit repaired knot vector
+away from the ghost positions); `n < p + k` is `C04_periodic_small`, and `C04_periodic` combines the
+two without any guard. -/
 theorem C04_periodic_partial (b : Basis K) (hv : b.Valid) (k : ℕ) (hk : b.periodic = (k : Int))
     (hguard : b.order + k ≤ b.numFunctions) (x0 : K) :
     b.start ≤ wrapVal b x0 ∧ wrapVal b x0 ≤ b.stop ∧
@@ -328,27 +341,138 @@ theorem C04_periodic_partial (b : Basis K) (hv : b.Valid) (k : ℕ) (hk : b.peri
   rw [hw]
   exact insertKnot_periodic_geom_le b hv k hk hguard (wrapVal b x0) ⟨h1, h2⟩
 
-/-- **Sequences of periodic insertions** (guard `n ≥ p+k` for the first basis; it then holds for
-all later ones): any list of reals (the domain end included): every step succeeds and
-the final basis `PerRefines` the first (valid periodic, same order/continuity/domain, `xs.length` more
-knots and functions, accumulated matrix maps coefficients to coefficients of the same periodic
-function on the domain, all derivatives, both sides).  `_partial`: same exclusions as
-`C04_periodic_partial`. -/
-theorem C04_periodic_sequence_partial (b : Basis K) (hv : b.Valid) (k : ℕ)
-    (hk : b.periodic = (k : Int)) (hguard : b.order + k ≤ b.numFunctions) (xs : List K) :
-    ∃ b' C, insertMany b (Mat.identity b.numFunctions) xs = .ok (b', C) ∧
-      PerRefines b b' C xs.length :=
-  insertMany_periodic_any b hv k hk hguard xs
+/-- **Periodic bases with fewer than `p + k` functions (the cover branch of `insert_knot`).**
+Valid periodic basis (continuity `k`, order `p`) with `n < p + k` functions — down to `n = 1` — and ANY
+real `x0` (wrapped image `x = wrapVal b x0`, `x = end` included): `insert_knot(x0)` — which refines the
+`R`-fold cover of the basis (`R = ⌈(p+k)/n⌉` periods, all `R` images of the knot inserted into the cover,
+coefficients repeated, first `len(knots)+1` knots and first `n+1` rows kept) — succeeds; the new knot
+vector is a valid periodic knot vector (sorted; ghost knots repeat with the unchanged period over `n+1`
+functions) with the same start and end, one more knot and function; on `ℤ`, one period of the new
+knots is one period of the old knots with `x` inserted in sorted position (`PerIns`), so the
+multiplicity `perMult` of the class of `x` modulo the period grows by one and no other changes; `C` is
+`(n+1) × n`; and **the geometry is unchanged**: for every coefficient vector, side, derivative order
+and parameter of the domain, the periodic spline `wsum` with `C·c` on the new basis equals the one with
+`c` on the old basis.
+Proof: the `R` direct insertions into the cover compose (`PerRefines` on the cover); the refined cover's
+knots are again `T`-periodic (index induction on `ℤ`); the coefficients need not repeat exactly (they do
+not when `x = end` has multiplicity `≥ p`), but on every non-empty knot interval the B-splines are
+linearly independent (total positivity), so wherever a function does not vanish its two candidate
+coefficients agree. -/
+theorem C04_periodic_small (b : Basis K) (hv : b.Valid) (k : ℕ) (hk : b.periodic = (k : Int))
+    (hsmall : b.numFunctions < b.order + k) (x0 : K) :
+    b.start ≤ wrapVal b x0 ∧ wrapVal b x0 ≤ b.stop ∧
+    b.insertKnot x0 = b.insertKnot (wrapVal b x0) ∧
+    ∃ b' C, b.insertKnot x0 = .ok (b', C) ∧ b'.Valid ∧ b'.order = b.order ∧
+      b'.periodic = b.periodic ∧ b'.knots.size = b.knots.size + 1 ∧
+      b'.numFunctions = b.numFunctions + 1 ∧ b'.start = b.start ∧ b'.stop = b.stop ∧
+      PerIns b b' (wrapVal b x0) ∧
+      (∀ v, b'.perMult v = b.perMult v
+        + (open Classical in if (∃ m : ℤ, x0 = v + (m : K) * (b.stop - b.start)) then 1 else 0)) ∧
+      Shape (b.numFunctions + 1) b.numFunctions C ∧
+      ∀ (c : ℕ → K) (s : Side) (d : ℕ) (t : K), s.mem b.start b.stop t →
+        wsum s b'.kn (b.order - 1) (b.nAll + 1) (b.numFunctions + 1) (mulVec C b.numFunctions c) d t
+          = wsum s b.kn (b.order - 1) b.nAll b.numFunctions c d t := by
+  classical
+  obtain ⟨h1, h2, _⟩ := wrapVal_mem b hv.start_lt_stop x0
+  have hw := insertKnot_wrap b (by rw [hk]; omega) hv.start_lt_stop x0
+  refine ⟨h1, h2, hw, ?_⟩
+  rw [hw]
+  obtain ⟨b', C, e1, hr, hins⟩ := insertKnot_periodic_small b hv k hk hsmall (wrapVal b x0) ⟨h1, h2⟩
+  refine ⟨b', C, e1, hr.valid, hr.order_eq, hr.periodic_eq, hr.size_eq, hr.num_eq, hr.start_eq,
+    hr.stop_eq, hins, fun v => ?_, hr.shape, hr.same⟩
+  rw [perIns_perMult b b' C _ hv (by rw [hk]; omega) hr hins v,
+    if_congr (wrapVal_cong b x0 v) rfl rfl]
 
-/-- **Objects, periodic direction** (`Obj.insertKnots` along a valid periodic direction with
-`n ≥ p+k` and matching control-net length): success; refined periodic basis; other bases, `rational`
-untouched; net grows only along `dir`; every fibre of the new net is `C` applied to the old fibre;
-hence the periodic spline of every fibre (every homogeneous coordinate on every grid line) is
-unchanged on the domain.  `_partial`: same exclusions as `C04_periodic_partial`. -/
+/-- **Periodic bases: knot insertion never changes the geometry.**  EVERY valid periodic basis
+(continuity `k`; no lower bound on the number of functions) and ANY real `x0` (wrapped by the code to
+`x = wrapVal b x0 ∈ [start, end]`; `x = end` included): `insert_knot(x0)` succeeds; the new basis is a
+valid periodic basis ("periodic images consistent": sorted, ghost knots repeat with the unchanged period
+over `n+1` functions) of the same order and continuity with the same start and end, one more knot and
+function; the periodic knot set is the old one plus `x`: one period of the new knots is one period of
+the old knots with `x` inserted (`PerIns`), i.e. the multiplicity of the class of `x0` modulo the period
+grows by one and every other multiplicity is unchanged; `C` is `(n+1) × n`; and for every coefficient
+vector, side, derivative order and parameter of the domain the periodic spline (`wsum`, what
+`BSplineBasis.evaluate` computes) with `C·c` on the new basis equals the one with `c` on the old
+basis. -/
+theorem C04_periodic (b : Basis K) (hv : b.Valid) (k : ℕ) (hk : b.periodic = (k : Int)) (x0 : K) :
+    ∃ b' C, b.insertKnot x0 = .ok (b', C) ∧ b'.Valid ∧ b'.order = b.order ∧
+      b'.periodic = b.periodic ∧ b'.knots.size = b.knots.size + 1 ∧
+      b'.numFunctions = b.numFunctions + 1 ∧ b'.start = b.start ∧ b'.stop = b.stop ∧
+      PerIns b b' (wrapVal b x0) ∧
+      (∀ v, b'.perMult v = b.perMult v
+        + (open Classical in if (∃ m : ℤ, x0 = v + (m : K) * (b.stop - b.start)) then 1 else 0)) ∧
+      Shape (b.numFunctions + 1) b.numFunctions C ∧
+      ∀ (c : ℕ → K) (s : Side) (d : ℕ) (t : K), s.mem b.start b.stop t →
+        wsum s b'.kn (b.order - 1) (b.nAll + 1) (b.numFunctions + 1) (mulVec C b.numFunctions c) d t
+          = wsum s b.kn (b.order - 1) b.nAll b.numFunctions c d t := by
+  classical
+  obtain ⟨b', C, e1, hr, hins⟩ := insertKnot_per_step_all b hv k hk x0
+  refine ⟨b', C, e1, hr.valid, hr.order_eq, hr.periodic_eq, hr.size_eq, hr.num_eq, hr.start_eq,
+    hr.stop_eq, hins, fun v => ?_, hr.shape, hr.same⟩
+  rw [perIns_perMult b b' C _ hv (by rw [hk]; omega) hr hins v,
+    if_congr (wrapVal_cong b x0 v) rfl rfl]
+
+/-- **Sequences of periodic insertions, every valid periodic basis.**  Any list of reals: every step
+succeeds and the final basis `PerRefines` the first (valid periodic — sorted, ghost knots consistent
+`kn (i+n') = kn i + T` — same order/continuity/domain, `xs.length` more knots and functions, the
+accumulated matrix maps coefficients to coefficients of the same periodic function on the domain, all
+derivatives, both sides); and the periodic knot set is the old one plus exactly the inserted values:
+for every `v`, the multiplicity of the class of `v` modulo the period among the knots of one period
+grows by the number of inserted values in that class. -/
+theorem C04_periodic_sequence (b : Basis K) (hv : b.Valid) (k : ℕ) (hk : b.periodic = (k : Int))
+    (xs : List K) :
+    ∃ b' C, insertMany b (Mat.identity b.numFunctions) xs = .ok (b', C) ∧
+      PerRefines b b' C xs.length ∧
+      ∀ v, b'.perMult v = b.perMult v + congCount (b.stop - b.start) xs v :=
+  insertMany_periodic_all b hv k hk xs
+
+/-- **Objects, periodic direction, every valid periodic basis** (`Obj.insertKnots` along a valid
+periodic direction with matching control-net length): success; refined periodic basis (`PerRefines`);
+periodic knot set = old plus inserted (`perMult`); other bases, `rational` untouched; net grows only
+along `dir`; every fibre of the new net is `C` applied to the old fibre; hence the periodic spline of
+every fibre (every homogeneous coordinate on every grid line) is unchanged on the domain, with all
+derivatives. -/
+theorem C04_periodic_object (o : Obj K) (dir : ℕ) (hdir : dir < o.bases.size)
+    (hax : dir < o.cps.shape.length) (hv : (o.basis dir).Valid) (k : ℕ)
+    (hk : (o.basis dir).periodic = (k : Int))
+    (hshape : o.cps.shape.getD dir 0 = (o.basis dir).numFunctions) (xs : List K) :
+    ∃ o' C, o.insertKnots xs dir = .ok o' ∧
+      PerRefines (o.basis dir) (o'.basis dir) C xs.length ∧
+      (∀ v, (o'.basis dir).perMult v = (o.basis dir).perMult v
+        + congCount ((o.basis dir).stop - (o.basis dir).start) xs v) ∧
+      (∀ d, d ≠ dir → o'.basis d = o.basis d) ∧ o'.rational = o.rational ∧
+      o'.cps.shape = o.cps.shape.set dir ((o.basis dir).numFunctions + xs.length) ∧
+      (∀ a i r, a < outerN o dir → i < innerN o dir → r < (o.basis dir).numFunctions + xs.length →
+        fibre o' dir a i r = mulVec C (o.basis dir).numFunctions (fibre o dir a i) r) ∧
+      ∀ a i, a < outerN o dir → i < innerN o dir → ∀ (s : Side) (d : ℕ) (t : K),
+        s.mem (o.basis dir).start (o.basis dir).stop t →
+        wsum s (o'.basis dir).kn ((o.basis dir).order - 1) ((o.basis dir).nAll + xs.length)
+            ((o.basis dir).numFunctions + xs.length) (fibre o' dir a i) d t
+          = wsum s (o.basis dir).kn ((o.basis dir).order - 1) (o.basis dir).nAll
+            (o.basis dir).numFunctions (fibre o dir a i) d t := by
+  obtain ⟨o', C, h1, h2, hc, h3, h4, h5, _, _, h8, _⟩ :=
+    insertKnots_fibres_periodic_all o dir hdir hax hv k hk hshape xs
+  refine ⟨o', C, h1, h2, hc, h3, h4, h5, h8, fun a i ha hi s d t ht => ?_⟩
+  have hn := numFunctions_pos hv
+  rw [wsum_congr s _ _ _ _ (by omega) _ _ d t (fun r hr => h8 a i r ha hi hr)]
+  exact h2.same (fibre o dir a i) s d t ht
+
+/-- **Sequences of periodic insertions** (older guarded form, kept as a corollary of
+`C04_periodic_sequence`; the hypothesis `hguard` is not used): every step succeeds and the final basis
+`PerRefines` the first. -/
+theorem C04_periodic_sequence_partial (b : Basis K) (hv : b.Valid) (k : ℕ)
+    (hk : b.periodic = (k : Int)) (_hguard : b.order + k ≤ b.numFunctions) (xs : List K) :
+    ∃ b' C, insertMany b (Mat.identity b.numFunctions) xs = .ok (b', C) ∧
+      PerRefines b b' C xs.length := by
+  obtain ⟨b', C, h1, h2, _⟩ := C04_periodic_sequence b hv k hk xs
+  exact ⟨b', C, h1, h2⟩
+
+/-- **Objects, periodic direction** (older guarded form, kept as a corollary of `C04_periodic_object`;
+the hypothesis `hguard` is not used). -/
 theorem C04_periodic_object_partial (o : Obj K) (dir : ℕ) (hdir : dir < o.bases.size)
     (hax : dir < o.cps.shape.length) (hv : (o.basis dir).Valid) (k : ℕ)
     (hk : (o.basis dir).periodic = (k : Int))
-    (hguard : (o.basis dir).order + k ≤ (o.basis dir).numFunctions)
+    (_hguard : (o.basis dir).order + k ≤ (o.basis dir).numFunctions)
     (hshape : o.cps.shape.getD dir 0 = (o.basis dir).numFunctions) (xs : List K) :
     ∃ o' C, o.insertKnots xs dir = .ok o' ∧
       PerRefines (o.basis dir) (o'.basis dir) C xs.length ∧
@@ -362,26 +486,22 @@ theorem C04_periodic_object_partial (o : Obj K) (dir : ℕ) (hdir : dir < o.base
             ((o.basis dir).numFunctions + xs.length) (fibre o' dir a i) d t
           = wsum s (o.basis dir).kn ((o.basis dir).order - 1) (o.basis dir).nAll
             (o.basis dir).numFunctions (fibre o dir a i) d t := by
-  obtain ⟨o', C, h1, h2, h3, h4, h5, _, _, h8, _⟩ :=
-    insertKnots_fibres_periodic_any o dir hdir hax hv k hk hguard hshape xs
-  refine ⟨o', C, h1, h2, h3, h4, h5, h8, fun a i ha hi s d t ht => ?_⟩
-  have hn := numFunctions_pos hv
-  rw [wsum_congr s _ _ _ _ (by omega) _ _ d t (fun r hr => h8 a i r ha hi hr)]
-  exact h2.same (fibre o dir a i) s d t ht
+  obtain ⟨o', C, h1, h2, _, h3, h4, h5, h8, h9⟩ :=
+    C04_periodic_object o dir hdir hax hv k hk hshape xs
+  exact ⟨o', C, h1, h2, h3, h4, h5, h8, h9⟩
 
-/-- **Periodic curves and the real evaluator.**  Curve over a valid periodic basis `b1` with
-`n ≥ p+k`, rational or not; any reals `xs`; `tol > 0`
+/-- **Periodic curves and the real evaluator.**  Curve over ANY valid periodic basis `b1`,
+rational or not; any reals `xs`; `tol > 0`
 (`state.knot_tolerance`); parameters `us` admissible for `b1` (`Basis.Admissible`: every tolerance
 comparison exact at `u` and at the wrapped point):
 `insert_knot(xs)` succeeds, the new basis is valid with `xs.length` more functions, and
 `o'.evaluate tol [us] = o.evaluate tol [us]` (the same tensor, or the same error) provided the
 parameters are admissible for the new basis as well.  (For non-periodic directions of curves,
 surfaces and volumes see `Bridge_C04_*` in `Properties/Bridge.lean`.)
-`_partial`: same exclusions as `C04_periodic_partial`; surfaces/volumes with a periodic direction are
-covered fibre-wise by `C04_periodic_object_partial` only. -/
+`_partial`: curves only — surfaces/volumes with a periodic direction are covered fibre-wise by
+`C04_periodic_object`, not at the level of `Obj.evaluate`. -/
 theorem C04_periodic_evaluate_curve_partial {o : Obj K} {b1 : Basis K} (hb : o.bases = #[b1])
-    (hv1 : b1.Valid) (k : ℕ) (hk : b1.periodic = (k : Int))
-    (hguard : b1.order + k ≤ b1.numFunctions) {nc : ℕ}
+    (hv1 : b1.Valid) (k : ℕ) (hk : b1.periodic = (k : Int)) {nc : ℕ}
     (hs : o.cps.shape = [b1.numFunctions, nc]) (hnc : o.rational = true → 1 ≤ nc)
     (xs : List K) {tol : K} (htol : 0 < tol)
     {us : List K} (hus : ∀ u ∈ us, b1.Admissible tol u) :
@@ -389,7 +509,7 @@ theorem C04_periodic_evaluate_curve_partial {o : Obj K} {b1 : Basis K} (hb : o.b
       (o'.basis 0).numFunctions = b1.numFunctions + xs.length ∧
       ((∀ u ∈ us, (o'.basis 0).Admissible tol u) →
         o'.evaluate tol [us] true = o.evaluate tol [us] true) :=
-  evaluate_unchanged_periodic_curve hb hv1 k hk hguard hs hnc xs htol hus
+  evaluate_unchanged_periodic_curve_all hb hv1 k hk hs hnc xs htol hus
 
 /-! ## Non-vacuity: the hypotheses are satisfiable (concrete instances at `ℚ`) -/
 
@@ -589,7 +709,7 @@ example : ∃ o', C04_exPerCurve.insertKnots [1/2, -5/2] 0 = .ok o' ∧
     C04_exPer.wrap_of_mem (by norm_num [Basis.start, Basis.kn, C04_exPer])
       (by rw [C04_exPer_stop]; norm_num)
   obtain ⟨o', h1, _, h3, _⟩ := C04_periodic_evaluate_curve_partial (o := C04_exPerCurve)
-    (b1 := C04_exPer) rfl C04_exPer_valid 0 rfl (by decide) (nc := 2) rfl (by decide) [1/2, -5/2]
+    (b1 := C04_exPer) rfl C04_exPer_valid 0 rfl (nc := 2) rfl (by decide) [1/2, -5/2]
     (tol := 1/1000) (by norm_num) (us := [1/4])
     (by
       intro u hu
@@ -597,3 +717,61 @@ example : ∃ o', C04_exPerCurve.insertKnots [1/2, -5/2] 0 = .ok o' ∧
       subst hu
       exact ⟨hex, fun h => absurd h (by decide), fun _ => by rw [hw]; exact hex⟩)
   exact ⟨o', h1, h3⟩
+
+/-- Periodic (`C^1`) quadratic basis with `n = 2 < p + k = 4` functions (uniform knots, period 2). -/
+def C04_exSmall : Basis ℚ := ⟨3, #[-2, -1, 0, 1, 2, 3, 4], 1⟩
+
+theorem C04_exSmall_valid : C04_exSmall.Valid where
+  order_pos := by decide
+  size_ge := by decide
+  sorted := by
+    intro i hi
+    have hi' : i + 1 < 7 := hi
+    have hi'' : i < 6 := by omega
+    interval_cases i <;> norm_num [Basis.kn, C04_exSmall]
+  periodic_ge := by decide
+  periodic_le := by decide
+  start_lt_stop := by norm_num [Basis.start, Basis.stop, Basis.kn, C04_exSmall]
+  ghosts := by
+    intro _ i hi
+    have hi' : i + 2 < 7 := hi
+    have hi'' : i < 5 := by omega
+    have hn : C04_exSmall.numFunctions = 2 := by decide
+    rw [hn]
+    interval_cases i <;> norm_num [Basis.kn, Basis.start, Basis.stop, C04_exSmall]
+
+/-- C04_periodic_small: an interior value, the domain end, a value outside the domain. -/
+example : ∃ b' C, C04_exSmall.insertKnot (1/2) = .ok (b', C) ∧ b'.Valid ∧ b'.numFunctions = 3 := by
+  obtain ⟨_, _, _, b', C, h1, h2, _, _, _, h6, _⟩ :=
+    C04_periodic_small C04_exSmall C04_exSmall_valid 1 rfl (by decide) (1/2)
+  exact ⟨b', C, h1, h2, h6⟩
+
+example : ∃ b' C, C04_exSmall.insertKnot 2 = .ok (b', C) ∧ b'.Valid := by
+  obtain ⟨_, _, _, b', C, h1, h2, _⟩ :=
+    C04_periodic_small C04_exSmall C04_exSmall_valid 1 rfl (by decide) 2
+  exact ⟨b', C, h1, h2⟩
+
+/-- C04_periodic on the small basis and on the large one. -/
+example : ∃ b' C, C04_exSmall.insertKnot (9/2) = .ok (b', C) ∧ b'.Valid := by
+  obtain ⟨b', C, h1, h2, _⟩ := C04_periodic C04_exSmall C04_exSmall_valid 1 rfl (9/2)
+  exact ⟨b', C, h1, h2⟩
+
+example : ∃ b' C, C04_exPer.insertKnot 3 = .ok (b', C) ∧ b'.Valid := by
+  obtain ⟨b', C, h1, h2, _⟩ := C04_periodic C04_exPer C04_exPer_valid 0 rfl 3
+  exact ⟨b', C, h1, h2⟩
+
+/-- C04_periodic_sequence: repeated refinement starting from the small basis. -/
+example : ∃ b' C, insertMany C04_exSmall (Mat.identity C04_exSmall.numFunctions) [1/2, 2, -5/2, 1/2]
+    = .ok (b', C) ∧ PerRefines C04_exSmall b' C 4 := by
+  obtain ⟨b', C, h1, h2, _⟩ :=
+    C04_periodic_sequence C04_exSmall C04_exSmall_valid 1 rfl [1/2, 2, -5/2, 1/2]
+  exact ⟨b', C, h1, h2⟩
+
+/-- C04_periodic_object: a periodic curve with two control points. -/
+def C04_exSmallCurve : Obj ℚ :=
+  { bases := #[C04_exSmall], cps := { shape := [2, 2], data := #[0, 0, 1, 2] }, rational := false }
+
+example : ∃ o', C04_exSmallCurve.insertKnots [1/2, 2] 0 = .ok o' ∧ o'.cps.shape = [4, 2] := by
+  obtain ⟨o', C, h1, _, _, _, _, h5, _⟩ := C04_periodic_object C04_exSmallCurve 0 (by decide)
+    (by decide) C04_exSmall_valid 1 rfl (by decide) [1/2, 2]
+  exact ⟨o', h1, h5⟩
